@@ -320,8 +320,14 @@ func (f *Frame) convert(st *State, v Val, to types.Type, pos token.Pos) Val {
 			fn := f.c.uf("str_of_bytes", []string{fs}, "Str")
 			r := Val{T: fmt.Sprintf("(%s %s)", fn, v.T), Ty: to}
 			st.assume(fmt.Sprintf("(= (gstr_len %s) (%s.len %s))", r.T, fs, v.T))
-			f.c.note("string([]byte) conversion: uninterpreted, length-preserving, bytes related through gstr_at")
-			return f.name("s", r)
+			nr := f.name("s", r)
+			// the string's bytes are the slice's bytes (so equal strings mean equal contents)
+			f.c.qN++
+			q := fmt.Sprintf("i!q%d", f.c.qN)
+			st.assume(fmt.Sprintf("(forall ((%s Int)) (=> (and (<= 0 %s) (< %s (%s.len %s))) (= (select (gstr_bytes %s) %s) (select (%s.arr %s) (+ (%s.off %s) %s)))))",
+				q, q, q, fs, v.T, nr.T, q, fs, v.T, fs, v.T, q))
+			f.c.note("string([]byte) conversion: a function of the slice value; same length and the same bytes")
+			return nr
 		}
 		if isInteger(from) {
 			return f.havoc(st, "runestr", to)
